@@ -28,6 +28,8 @@ mod notification;
 mod program_help_sidebar;
 pub mod show_widgets;
 mod supervisor_wrapper;
+#[cfg(feature = "verif-hooks")]
+pub mod verif;
 
 use crate::{
     args::InteractiveArgs,
